@@ -17,6 +17,7 @@
 #include "StrList.h"
 
 #include <cerrno>
+#include <climits>
 
 static void httpHeaderPutStrvf(HttpHeader * hdr, Http::HdrType id, const char *fmt, va_list vargs);
 
@@ -84,7 +85,15 @@ int
 httpHeaderParseInt(const char *start, int *value)
 {
     assert(value);
-    *value = atoi(start);
+    *value = 0;
+    char *end = nullptr;
+    errno = 0;
+    const long res = strtol(start, &end, 10);
+    if (end == start || errno == ERANGE || res < INT_MIN || res > INT_MAX) {
+        debugs(66, 2, "failed to parse an int header field (no digits or out of range) near '" << start << "'");
+        return 0;
+    }
+    *value = static_cast<int>(res);
 
     if (!*value && !xisdigit(*start)) {
         debugs(66, 2, "failed to parse an int header field near '" << start << "'");
